@@ -174,7 +174,24 @@ func run(g int, ops *js.Object) {
 				runtime.Goexit()
 			}
 		case "panic":
+			if op.Get("x").Bool() {
+				// a deferred call panics while runtime.Goexit unwinds the goroutine; nothing recovers it
+				func() {
+					defer func() { panic("boom") }()
+					runtime.Goexit()
+				}()
+			}
 			panic("boom")
+		}
+		if op.Get("x").Bool() {
+			// the operation is performed by a deferred call that runs because of runtime.Goexit
+			func() {
+				defer func() {
+					res := doOp(g, pc, op)
+					logOp(g, pc, "ret", res)
+				}()
+				runtime.Goexit()
+			}()
 		}
 		res := doOp(g, pc, op)
 		logOp(g, pc, "ret", res)
@@ -216,6 +233,11 @@ func makeCallback(idx int, cb *js.Object) func(a int, s string) *js.Object {
 			h := cb.Get("g").Int()
 			go run(h, gs.Index(h))
 		case "chanop":
+			if cb.Get("deferred").Bool() {
+				// the operation is performed by a deferred call while the callback is panicking
+				defer func() { execOp(g, 0, cb.Get("op"), res) }()
+				panic("cbfirst")
+			}
 			if cb.Get("recover").Bool() {
 				res = doOp(g, 0, cb.Get("op"))
 			} else {
